@@ -118,6 +118,8 @@ def fresh_first64(seed):
 def direct(ctx, entries, count=False, first64=False):
     gen = torch.Generator().manual_seed(ctx.seed + 1919)
     for e in entries:
+        if e.extra.get('huge'):
+            continue      # determinants of 1e-400 / 1e+358: not "parameters of moderate magnitude"
         try:
             for regime in (('fresh',) if e.extra.get('big') else ('fresh', 'normal')):
                 t32 = tcorr.build(e, gen, torch.float32, regime)
